@@ -37,6 +37,6 @@ class QuaToOsu(ConvertBase):
         osu.creator = qua.creator
         osu.version = qua.difficulty_name
         osu.preview_time = qua.song_preview_time
-        osu.tags = qua.tags
+        osu.tags = list(qua.tags)
 
         return osu
